@@ -9,5 +9,6 @@ pub mod registry;
 
 pub mod c02_fuse;
 pub mod c08_scalar;
+pub mod c08_steps;
 pub mod c_scalar;
 pub mod c20_filters;
